@@ -62,28 +62,58 @@ def check(prop, tier, args):
     aggs = []
     harness = []
     ctx = multiprocessing.get_context('fork')
-    died = []
-    with ProcessPoolExecutor(max_workers=nw, mp_context=ctx) as ex:
-        futs = {ex.submit(runner.worker, j): j for j in jobs}
-        for f in as_completed(futs):
-            try:
-                aggs.append(f.result(timeout=budget + 600))
-            except Exception as e:  # noqa
-                died.append((futs[f], e))
+    pool_restarts = 0
+    def run_pool(todo):
+        gone = []
+        with ProcessPoolExecutor(max_workers=nw, mp_context=ctx) as ex:
+            futs = {ex.submit(runner.worker, j): j for j in todo}
+            for f in as_completed(futs):
+                try:
+                    aggs.append(f.result(timeout=budget + 600))
+                except Exception as e:  # noqa
+                    gone.append((futs[f], e))
+        return gone
+    died = run_pool(jobs)
+    if died:
+        # one dead worker breaks the whole pool and takes every unfinished
+        # block with it: run those blocks again in a fresh pool first; only
+        # blocks that are lost a second time are taken apart run by run
+        print('NOTE: worker pool broke (%r); %d blocks are run again'
+              % (died[0][1], len(died)))
+        again = [(j[0], j[1], j[2], j[3], j[4], time.time() + budget)
+                 for j, _ in died]
+        first_death = died[0][1]
+        died = run_pool(again)
+        if not died:
+            print('NOTE: all blocks completed in the second pool')
+            pool_restarts = 1
     crash_viols = []
+    worker_deaths = 0
     if died:
         # a worker process was killed (e.g. a segfault in a compiled kernel):
         # find the run and event in fresh interpreters with write-ahead logs
         lost = [sd for j, _ in died for sd in j[0]]
         crash_viols = runner.isolate_crash(prop, tier, lost, owners)
-        if not crash_viols:
-            harness.append('worker died: %r (not reproduced in isolation '
-                           'over %d seeds)' % (died[0][1], len(lost)))
+        redone = getattr(runner.isolate_crash, 'completed', 0)
+        if not crash_viols and redone == len(lost):
+            # every run the dead worker(s) held was executed again, one per
+            # fresh interpreter, ran to its end and held: nothing is left
+            # unexplored (a watchdog or the OOM killer on an overloaded
+            # machine, not the library)
+            print('NOTE: a worker process died (%r); its %d runs were '
+                  're-executed in fresh interpreters and completed'
+                  % (died[0][1], len(lost)))
+            worker_deaths = len(died)
+        elif not crash_viols:
+            harness.append('worker died: %r (not reproduced in isolation: '
+                           '%d of %d runs completed)' % (died[0][1], redone,
+                                                         len(lost)))
     tot = {'runs': 0, 'events': 0, 'stats': Counter(), 'cases': set(),
            'probe_count': Counter(), 'known_seen': Counter(),
            'violations': [], 'signals': [], 'samples': [], 'digests': {},
            'truncated': False}
     tot['violations'] += crash_viols
+    tot['stats']['worker_deaths_reexecuted'] += worker_deaths + pool_restarts
     for a in aggs:
         tot['runs'] += a['runs']
         tot['events'] += a['events']
@@ -269,6 +299,8 @@ def write_evidence(prop, tier, tot, viols, wall, planned, harness):
             'other_property_signals': tot['signals'][:10],
             'known_findings_seen': dict(tot['known_seen']),
             'harness_errors': len(harness),
+            'worker_deaths_reexecuted_in_isolation': stats.get(
+                'worker_deaths_reexecuted', 0),
         },
         'assumptions': [
             'sampling, not enumeration: a clean batch is evidence over the '
